@@ -400,3 +400,95 @@ def run(repo: Repo, rep: Report) -> None:  # noqa: F811
             # narrowed by an isinstance(x, bytes) test in an enclosing if: mypy already removed bytes from the type in that case
             rep.ob("C09.i-no-str-of-bytes", tm, tm.qual_of(c) or "<module>", c, not bad,
                    "argument cannot be bytes" if not bad else "%s may be bytes here (%s): the result is the text \"b'...'\", e.g. Literal(b'abc') gets the lexical form \"b'abc'\"" % (norm(c.args[0]), "|".join(tf.items)), node=c)
+
+
+_run_base2 = run
+
+
+def run(repo: Repo, rep: Report) -> None:  # noqa: F811
+    _run_base2(repo, rep)
+    tm = repo.mod("rdflib.term")
+    # ------------------------------------------------------------------ (j)
+    rep.rule("C09.j-boolean-parser-and-checker-agree",
+             "every lexical form that _well_formed_boolean accepts (its `lexical in (...)` tuple, str and bytes forms) is listed in one of _parseBoolean's accepted-value lists: a "
+             "form the checker calls well-formed but the parser does not know gets the value False without being flagged ill-typed", floor=8)
+    wf = tm.func("_well_formed_boolean")
+    pb = tm.func("_parseBoolean")
+    accepted = []
+    for c in own_nodes(wf):
+        if isinstance(c, ast.Compare) and isinstance(c.ops[0], ast.In) and isinstance(c.comparators[0], (ast.Tuple, ast.List, ast.Set)):
+            accepted = [e.value for e in c.comparators[0].elts if isinstance(e, ast.Constant)]
+    known = set()
+    for n in own_nodes(pb):
+        if isinstance(n, (ast.List, ast.Tuple, ast.Set)):
+            known |= {e.value for e in n.elts if isinstance(e, ast.Constant)}
+    lowers = any(isinstance(c, ast.Call) and isinstance(c.func, ast.Attribute) and c.func.attr == "lower" for c in own_nodes(pb))
+    if not accepted or not known:
+        raise AnalysisError("_well_formed_boolean / _parseBoolean: accepted-value tables not found")
+    for a in accepted:
+        probe = a.lower() if lowers and hasattr(a, "lower") else a
+        ok = probe in known
+        rep.ob("C09.j-boolean-parser-and-checker-agree", tm, "_parseBoolean", "%r is parsed" % (a,), ok,
+               "" if ok else "%r passes the well-formedness check but is in neither accepted-value list of _parseBoolean: Literal(%r, datatype=XSD.boolean) has the value False (for b'true' / b'1': the wrong value) and is not ill-typed" % (a, a), node=pb)
+
+    # ------------------------------------------------------------------ (k)
+    rep.rule("C09.k-xsd-whitespace-only",
+             "the whitespace helpers of xsd:normalizedString / xsd:token (_normalise_XSD_STRING, _strip_and_collapse_whitespace) treat exactly the XSD white space characters "
+             "(#x20, #x9, #xA, #xD): no argument-less str.split() / str.strip() / lstrip / rstrip and no `\\s` regex, which also match NO-BREAK SPACE, EM SPACE, U+3000, NEL, form "
+             "feed ... - ordinary value characters for XSD", floor=2)
+    for fname in ("_normalise_XSD_STRING", "_strip_and_collapse_whitespace"):
+        f = tm.func(fname)
+        found = 0
+        for c in own_nodes(f):
+            if isinstance(c, ast.Call) and isinstance(c.func, ast.Attribute) and c.func.attr in ("split", "strip", "lstrip", "rstrip"):
+                found += 1
+                bare = not c.args and not c.keywords
+                rep.ob("C09.k-xsd-whitespace-only", tm, fname, c, not bare,
+                       "explicit character set" if not bare else "%s() without argument works on Unicode whitespace: Literal('\\u00a0x', datatype=XSD.token) loses its NO-BREAK SPACE, a value character" % c.func.attr, node=c)
+            if isinstance(c, ast.Call) and norm(c.func).startswith("re.") and c.args and isinstance(c.args[0], ast.Constant) and isinstance(c.args[0].value, str):
+                found += 1
+                bad = "\\s" in c.args[0].value
+                rep.ob("C09.k-xsd-whitespace-only", tm, fname, c, not bad, "explicit character set" if not bad else "the pattern uses \\s (Unicode whitespace)", node=c)
+            if isinstance(c, ast.Call) and isinstance(c.func, ast.Attribute) and c.func.attr == "replace" and c.args and isinstance(c.args[0], ast.Constant):
+                found += 1
+                rep.ob("C09.k-xsd-whitespace-only", tm, fname, c, c.args[0].value in ("\t", "\n", "\r", " "), "XSD white space character", node=c)
+        if not found:
+            raise AnalysisError("%s: no whitespace operation found" % fname)
+
+    # ------------------------------------------------------------------ (l)
+    rep.rule("C09.l-eq-with-python-durations-covers-every-duration-datatype",
+             "Literal.eq compares a literal with a Python Duration / timedelta for every datatype whose registered converter is parse_xsd_duration (xsd:duration, xsd:dayTimeDuration, "
+             "xsd:yearMonthDuration): the datatype collection tested in that branch contains them all", floor=3)
+    x2p = _table(tm, "XSDToPython")
+    dur_types = {(_const_str(tm, k) or "").split("+")[-1] for k, v in zip(x2p.keys, x2p.values) if norm(v) == "parse_xsd_duration"}
+    eqf = tm.func("Literal.eq")
+    consts = {}
+    for st in tm.tree.body:
+        if isinstance(st, (ast.Assign, ast.AnnAssign)):
+            t = st.targets[0] if isinstance(st, ast.Assign) else st.target
+            v = getattr(st, "value", None)
+            if isinstance(t, ast.Name) and isinstance(v, (ast.Tuple, ast.List, ast.Set)):
+                consts[t.id] = v
+
+    def local(e):
+        s_ = _const_str(tm, e)
+        return (s_ or "").split("+")[-1]
+    done = False
+    for n in own_nodes(eqf):
+        if isinstance(n, ast.If) and any(isinstance(c, ast.Call) and norm(c.func) == "isinstance" and ("Duration" in norm(c) or "timedelta" in norm(c)) for c in ast.walk(n)):
+            for c in ast.walk(n):
+                if isinstance(c, ast.Compare) and isinstance(c.ops[0], ast.In) and norm(c.left) == "self.datatype":
+                    coll = c.comparators[0]
+                    if isinstance(coll, ast.Name) and coll.id in consts:
+                        coll = consts[coll.id]
+                    if not isinstance(coll, (ast.Tuple, ast.List, ast.Set)):
+                        continue
+                    have = {local(e) for e in coll.elts}
+                    if not (have & dur_types):
+                        continue
+                    done = True
+                    for d in sorted(dur_types):
+                        rep.ob("C09.l-eq-with-python-durations-covers-every-duration-datatype", tm, "Literal.eq", "%s in %s" % (d, norm(c.comparators[0])[:40]), d in have,
+                               "" if d in have else "xsd:%s literals (whose value is a Duration/timedelta) are not compared with a Python duration: Literal('P1Y2M', datatype=XSD.%s).eq(Duration(years=1, months=2)) is NotImplemented" % (d, d), node=c)
+    if not done:
+        raise AnalysisError("Literal.eq: duration branch not found")
